@@ -50,6 +50,7 @@ class PresGen:
             shape = r.choice(["named", "named", "newtype", "variant"])
 
             def parent(role, **fattrs):
+                nonlocal ft
                 if shape == "named":
                     p = self.mk("named", fields=[Field("own", prim("i32")), Field("f", ft, **fattrs)])
                 elif shape == "newtype":
@@ -65,6 +66,11 @@ class PresGen:
             flat_ok = shape in ("named", "variant") and kind == "user" and it.kind in ("named", "enum") and not (it.kind == "named" and it.tag)
             if flat_ok:
                 parent("flat", flatten=True)
+                # the same through a transparent wrapper
+                keep = ft
+                ft = Ty("box", args=[keep])
+                parent("flat-boxed", flatten=True)
+                ft = keep
             # `as = "F"` on a field whose Rust type is something else
             if shape == "named":
                 p = self.mk("named", fields=[Field("own", prim("i32")), Field("f", prim("u8"), as_=ft.rs())])
